@@ -416,8 +416,9 @@ def apalache_lemma(ctx, module="SeqWindowLemma", inv="Lemma", timeout=600):
     return True
 
 
-def apalache_check(ctx, family, module, args, timeout=900):
-    """Run one apalache-mc check obligation on spec/<family>/<module>.tla; Broken unless it reports NoError."""
+def apalache_check(ctx, family, module, args, timeout=900, expect_error=False):
+    """Run one apalache-mc check obligation on spec/<family>/<module>.tla; Broken unless it reports NoError
+    (with expect_error: returns True when Apalache found a counterexample, False when it did not)."""
     d = ctx.path("apalache-%s" % module, "x")[:-2]
     shutil.copy(os.path.join(SPEC, family, module + ".tla"), d)
     cmd = ["apalache-mc", "check"] + list(args) + ["--out-dir=" + os.path.join(d, "out"), module + ".tla"]
@@ -426,6 +427,13 @@ def apalache_check(ctx, family, module, args, timeout=900):
                            env=dict(os.environ, JAVA_TOOL_OPTIONS="-Djava.io.tmpdir=" + d))
     except subprocess.TimeoutExpired:
         raise Broken("Apalache timed out on %s %s" % (module, args))
+    if expect_error:
+        shutil.rmtree(os.path.join(d, "out"), True)
+        if "The outcome is: Error" in p.stdout and "invariant" in p.stdout:
+            return True
+        if "NoError" in p.stdout:
+            return False
+        raise Broken("Apalache neither discharged nor refuted %s %s:\n%s" % (module, args, p.stdout[-1500:]))
     if "EXITCODE: OK" not in p.stdout or "NoError" not in p.stdout:
         raise Broken("Apalache did not discharge %s %s:\n%s" % (module, args, p.stdout[-1500:]))
     shutil.rmtree(os.path.join(d, "out"), True)
